@@ -261,8 +261,8 @@ theorem skipRawContent_posAt {E : Env} {st st' : St} {m : Bytes} {p : Nat} (hpos
         rw [show walk = walkCode from rfl, hw] at hq
         simp only [bind_ok, pure_eq_ok] at hq
         cases hq
-        have := walkCode_posAt q 0 st st' hw (by simpa using hpos)
-        rw [(walkCode_sameButPos q 0 st st' hw).base]; simpa using this
+        have := walkCode_posAt _ 0 st st' hw (by simpa using hpos)
+        rw [(walkCode_sameButPos _ 0 st st' hw).base]; simpa using this
     cases r with
     | none => exact key _ h
     | some k =>
